@@ -256,7 +256,8 @@ def extra_items():
     """Items contributed by other translator modules (kept separate per property)."""
     items = []
     for modname in ("harness.tr.tr_reader", "harness.tr.tr_importer", "harness.tr.tr_optimizer",
-                    "harness.tr.tr_numbers", "harness.tr.tr_codecs", "harness.tr.tr_conc"):
+                    "harness.tr.tr_numbers", "harness.tr.tr_codecs", "harness.tr.tr_conc",
+                    "harness.tr.tr_bindings"):
         try:
             mod = __import__(modname, fromlist=["ITEMS"])
         except ImportError:
